@@ -62,6 +62,10 @@ class Tracer:
             f = f.f_back
         return out
 
+    def frame_stack(self, depth=2, n=3):
+        """the n innermost pdb2pqr frames above the wrapper as one string "inner < caller < ..." """
+        return " < ".join(self.frame_names(depth + 1, n))
+
     def frame_name(self, depth=2):
         """innermost pdb2pqr frame (Class.method or function) above the wrapper"""
         f = sys._getframe(depth)
@@ -126,7 +130,7 @@ class Tracer:
                 if k in ("x", "y", "z") and tr.on:
                     n = tr.ids.get(id(atom))
                     if n is not None:
-                        tr.dirty[n] = tr.frame_name(2)
+                        tr.dirty[n] = tr.frame_stack(2)
 
             st.Atom.__setattr__ = __setattr__
             self._undo.append((st.Atom, "__setattr__", _MISSING))
@@ -190,7 +194,7 @@ class Tracer:
                 atom = res.map.get(atomname)
                 r = orig(res, atomname, *xa, **xk)
                 if atom is not None:
-                    tr.emit(e="del", a=tr.aid(atom), name=atomname, res=_rid(res), fr=tr.frame_name(2))
+                    tr.emit(e="del", a=tr.aid(atom), name=atomname, res=_rid(res), fr=tr.frame_name(2), frs=tr.frame_stack(2))
                 return r
             return remove_atom
 
@@ -237,7 +241,7 @@ class Tracer:
                 n = tr.aid(atom)
                 tr.flush_moves()
                 r = orig(c, atom, *xa, **xk)
-                tr.emit(e="rem", c=cid(c), a=n, fr=tr.frame_name(2))
+                tr.emit(e="rem", c=cid(c), a=n, fr=tr.frame_name(2), frs=tr.frame_stack(2))
                 return r
             return remove_cell
 
